@@ -143,6 +143,9 @@ class Repo:
         self.consulted.add(relpath)
         return self.modules[relpath]
 
+    def exists(self, relpath: str) -> bool:
+        return os.path.isfile(os.path.join(self.root, relpath))
+
     def all_py(self, *subdirs: str) -> List[str]:
         res = []
         for sub in subdirs:
